@@ -28,7 +28,7 @@ func init() {
 				"R7: no handler of the pipeline modifies the EDNS data (OPT record, Extra section) of the request message it received (directly or through a callee): the writers read the client's EDNS size, DO bit and options from that very object.",
 			NotCovered: "that dns.Msg.Truncate really fits the size and the encoded sizes themselves; the up-to-36-byte padding " +
 				"overshoot on DoH acknowledged in a code comment (numeric, out of static reach).",
-			Rules: map[string]string{"C08-RC": "class rules (error chains, shadowed results, character classes, crossed arguments, pool constructors, array pools, loop completeness, loop-carried buffers, replacing setters, complete clones, Grow arithmetic, pooled-buffer escape, sorted searches, fresh decode targets, per-iteration objects, whole-message copies, codec guards) over the packages this property rests on", "C08-R13": "addEDE builds a fresh response OPT from the request's UDP size and DO bit only", "C08-R12": "the filtered response is written once and for the original request (pipeline table shared with C01-R10)", "C08-R1": "normalise-before-serialise in every wire writer", "C08-R2": "maxDNSSize over all orderings",
+			Rules: map[string]string{"C08-R14": "optCloner.clone resets every field of the pooled OPT record, so padding and keep-alive options of an earlier response do not reach another client (shared with C07-R1)", "C08-RC": "class rules (error chains, shadowed results, character classes, crossed arguments, pool constructors, array pools, loop completeness, loop-carried buffers, replacing setters, complete clones, Grow arithmetic, pooled-buffer escape, sorted searches, fresh decode targets, per-iteration objects, whole-message copies, codec guards) over the packages this property rests on", "C08-R13": "addEDE builds a fresh response OPT from the request's UDP size and DO bit only", "C08-R12": "the filtered response is written once and for the original request (pipeline table shared with C01-R10)", "C08-R1": "normalise-before-serialise in every wire writer", "C08-R2": "maxDNSSize over all orderings",
 				"C08-R3": "truncate / packWithPrefix gates", "C08-R4": "normalize decision tree and OPT fields",
 				"C08-R5": "padding / keep-alive / option filter gates", "C08-R6": "pooled OPT records are reset before reuse", "C08-R7": "no handler modifies the EDNS data of the request message"},
 		}})
@@ -36,6 +36,10 @@ func init() {
 
 func runC08(c *an.Ctx) {
 	classSweep(c, "C08")
+	// ---- R14: a cloned OPT record starts from the options of its source only; nothing a writer appended to a
+	// disposed response (padding, keep-alive) survives in the pooled record (shared with C07-R1)
+	c.Floor("C08-R14", 1)
+	c.Borrow("C08-R14", runC07, func(o an.Obligation) bool { return o.Rule == "C07-R1" && strings.Contains(o.Key, "optCloner") })
 	c08AddEDE(c)
 	// ---- R12: the filtered response is written once, for the original request (the writers size and
 	// truncate it by that request's EDNS buffer size and transport)
@@ -518,6 +522,14 @@ func runC08(c *an.Ctx) {
 					return ""
 				}
 				return "no change to the response when the request has no padding option"
+			}
+			// padding only ever adds an option: what the response already carries (the client-subnet echo, NSID,
+			// keep-alive) stays
+			for _, s := range stores {
+				kv := strings.SplitN(s, "=", 2)
+				if kv[0] == "p1.Option" && !strings.HasPrefix(kv[1], "builtin.append(p1.Option, ") {
+					return "the response's options are only appended to (got " + s + ")"
+				}
 			}
 			for k, v := range o.Mem {
 				if strings.HasSuffix(k, ".Padding") && v.Kind != an.KNil {
